@@ -4,14 +4,25 @@ import Drivers.Proto
 open EzdxfVerif EzdxfVerif.Render Proto
 
 /-! Line protocol driver of C18.
-    request  `draw|<layout>|<export 0/1>|<layers>|<blocks>|<entities>`   (also `spec|…`, `reach|…`)
+    request  `draw|<layout>|<export 0/1>|<layers>|<blocks>|<entities>[|<ctb>[|<keep>]]`   (also `spec|…`, `reach|…`, `lawful|…`)
+      ctb      = `aci:lw|-:rgb|-` joined by `;` (lineweight in mm as a fraction, colour 0xRRGGBB decimal), may be empty
+      keep     = handles (decimal) of the layout entities that pass `filter_func`, joined by `;`
+      a 9th field `allon|alloff|mono` (with an empty keep field) = layer property override function installed before drawing;
+      9th field `order` + 10th field `entityhandle:sorthandle;…` = redraw order table of the layout (keep `*` = no filter)
+    request  `layers|<layout>|<export>|<layers>|<frozen names joined by ;>[|<overrides>]` → resolved layer table of `from_viewport`,
+      overrides = `layername:aci:rgb|-:rawtransparency:linetype:lineweight` joined by `;`
+    request  `vports|<status values joined by space>` → status values of the viewports that are drawn
+    request  `drawvp|<layout>|<export>|<layers>|<blocks>|<entities>|<viewports>|<modelspace entities>` → paperspace layout with
+      VIEWPORT entities (`status,scale,ox,oy,frozen&…,override&…` joined by `;`)
       layers   = `name,color,truecolor|-1,transparency|-1,linetype,lineweight,flags,plot` joined by `;`
       blocks   = `name,basex,basey:<entities>` joined by `!`
       entities = joined by `;`
          leaf   `k,<kind>,<props>,x y x y …`           kind: line point popen pclosed solid circle attdef
-         insert `i,<props>,block,px,py,sx,sy,q,flip,<attribs>`   q = rotation / 90°, attribs `props~flag~x~y` joined by `&`
-      props    = `layer,color,truecolor|-1,linetype,lineweight,invisible,transparency|-1`
-    response `ok <prim>;<prim>…` with prim = `kind,#rrggbb[aa],pen,layer,linetype,lineweight,x y x y…`, or `err <PythonError>`;
+         insert `i,<props>,block,px,py,sx,sy,q,flip,<attribs>[,rows_cols_rowSp_colSp]`   q = rotation / 90° or `r<cos>_<sin>`,
+                attribs `props~flag~x~y` joined by `&`
+      props    = `layer,color,truecolor|-1,linetype,lineweight,invisible,transparency|-1,handle` (handle decimal, 0 = none)
+    response `ok <prim>;<prim>…` with prim = `kind,#rrggbb[aa],pen,layer,linetype,lineweight,handle,x y x y…`, or `err <PythonError>`,
+      `fallback` (a nested INSERT takes the explode fall-back), `outside <why>`;
     numbers are `p` or `p/q`. -/
 
 def parseRat (s : String) : Option Rat :=
@@ -40,10 +51,10 @@ def parseBool (s : String) : Option Bool :=
 
 def parseProps (fs : List String) : Option EProps :=
   match fs with
-  | [layer, color, tc, lt, lw, inv, tr] =>
-    match parseInt color, parseOptNat tc, parseInt lw, parseBool inv, parseOptNat tr with
-    | some c, some tc, some lw, some inv, some tr => some ⟨layer, c, tc, lt, lw, inv, tr⟩
-    | _, _, _, _, _ => none
+  | [layer, color, tc, lt, lw, inv, tr, h] =>
+    match parseInt color, parseOptNat tc, parseInt lw, parseBool inv, parseOptNat tr, h.toNat? with
+    | some c, some tc, some lw, some inv, some tr, some h => some ⟨layer, c, tc, lt, lw, inv, tr, h⟩
+    | _, _, _, _, _, _ => none
   | _ => none
 
 def parsePts (s : String) : Option (List P2) :=
@@ -63,8 +74,8 @@ def parseKind (s : String) : Option Kind :=
 
 def parseAttrib (s : String) : Option Attrib :=
   match s.splitOn "~" with
-  | [layer, color, tc, lt, lw, inv, tr, flag, x, y] =>
-    match parseProps [layer, color, tc, lt, lw, inv, tr], parseBool flag, parseRat x, parseRat y with
+  | [layer, color, tc, lt, lw, inv, tr, h, flag, x, y] =>
+    match parseProps [layer, color, tc, lt, lw, inv, tr, h], parseBool flag, parseRat x, parseRat y with
     | some p, some f, some a, some b => some ⟨p, f, ⟨a, b⟩⟩
     | _, _, _, _ => none
   | _ => none
@@ -73,18 +84,46 @@ def quarterDir (q : Nat) : P2 :=
   match q % 4 with
   | 0 => ⟨1, 0⟩ | 1 => ⟨0, 1⟩ | 2 => ⟨-1, 0⟩ | _ => ⟨0, -1⟩
 
+/-- `q` (quarter turns) or `r<cos>_<sin>` -/
+def parseDir (s : String) : Option P2 :=
+  if s.startsWith "r" then
+    match ((s.drop 1).toString).splitOn "_" with
+    | [c, sn] => match parseRat c, parseRat sn with
+      | some c, some sn => some ⟨c, sn⟩
+      | _, _ => none
+    | _ => none
+  else s.toNat?.map quarterDir
+
+def parseGrid (s : String) : Option (Nat × Nat × Rat × Rat) :=
+  match s.splitOn "_" with
+  | [r, c, rs, cs] => match r.toNat?, c.toNat?, parseRat rs, parseRat cs with
+    | some r, some c, some rs, some cs => some (r, c, rs, cs)
+    | _, _, _, _ => none
+  | _ => none
+
+def parseIns (fs : List String) (grid : Nat × Nat × Rat × Rat) : Option Ent :=
+  match fs with
+  | [layer, color, tc, lt, lw, inv, tr, h, name, px, py, sx, sy, q, flip, atts] =>
+    match parseProps [layer, color, tc, lt, lw, inv, tr, h], parseRat px, parseRat py, parseRat sx, parseRat sy,
+          parseDir q, parseBool flip, (splitList atts "&").mapM parseAttrib with
+    | some p, some px, some py, some sx, some sy, some d, some fl, some as =>
+      some (.ins ⟨p, name, ⟨px, py⟩, sx, sy, d, fl, as, grid.1, grid.2.1, grid.2.2.1, grid.2.2.2⟩)
+    | _, _, _, _, _, _, _, _ => none
+  | _ => none
+
 def parseEnt (s : String) : Option Ent :=
   match s.splitOn "," with
-  | ["k", kind, layer, color, tc, lt, lw, inv, tr, pts] =>
-    match parseKind kind, parseProps [layer, color, tc, lt, lw, inv, tr], parsePts pts with
+  | ["k", kind, layer, color, tc, lt, lw, inv, tr, h, pts] =>
+    match parseKind kind, parseProps [layer, color, tc, lt, lw, inv, tr, h], parsePts pts with
     | some k, some p, some ps => some (.leaf k p ps)
     | _, _, _ => none
-  | ["i", layer, color, tc, lt, lw, inv, tr, name, px, py, sx, sy, q, flip, atts] =>
-    match parseProps [layer, color, tc, lt, lw, inv, tr], parseRat px, parseRat py, parseRat sx, parseRat sy,
-          q.toNat?, parseBool flip, (splitList atts "&").mapM parseAttrib with
-    | some p, some px, some py, some sx, some sy, some q, some fl, some as =>
-      some (.ins ⟨p, name, ⟨px, py⟩, sx, sy, quarterDir q, fl, as⟩)
-    | _, _, _, _, _, _, _, _ => none
+  | "i" :: fs =>
+    if fs.length = 16 then parseIns fs (1, 1, 0, 0)
+    else if fs.length = 17 then
+      match parseGrid (fs.getD 16 "") with
+      | some g => parseIns (fs.take 16) g
+      | none => none
+    else none
   | _ => none
 
 def parseEnts (s : String) : Option (List Ent) := (splitList s ";").mapM parseEnt
@@ -120,10 +159,11 @@ def showKind : PKind → String
 
 def showPrim (p : Prim) : String :=
   ",".intercalate [showKind p.kind, showColor p.color, toString p.pen, p.layer, p.linetype, showRat p.lineweight,
-    " ".intercalate (p.pts.map (fun q => showRat q.x ++ " " ++ showRat q.y))]
+    toString p.handle, " ".intercalate (p.pts.map (fun q => showRat q.x ++ " " ++ showRat q.y))]
 
 def showErr : Err → String
-  | .recursion => "RecursionError" | .structure => "DXFStructureError" | .index => "IndexError"
+  | .recursion => "err RecursionError" | .structure => "err DXFStructureError" | .index => "err IndexError"
+  | .fallback => "fallback" | .irrational => "outside irrational" | .degenerate => "outside degenerate"
 
 def showPrims (ps : List Prim) : String := "ok " ++ ";".intercalate (ps.map showPrim)
 
@@ -132,32 +172,141 @@ structure Req where
   ctx : Ctx
   ents : List Ent
 
-def parseReq (layout exp layers blocks ents : String) : Option Req :=
-  match parseBool exp, (splitList layers ";").mapM parseLayer, (splitList blocks "!").mapM parseBlock, parseEnts ents with
-  | some ex, some ls, some bs, some es =>
+/-- `aci:lw|-:rgb|-` -/
+def parseCtbEntry (s : String) : Option (Nat × Option Rat × Option Nat) :=
+  match s.splitOn ":" with
+  | [a, lw, rgb] =>
+    match a.toNat?, (if lw = "-" then some none else (parseRat lw).map some),
+          (if rgb = "-" then some none else rgb.toNat?.map some) with
+    | some a, some lw, some rgb => some (a, lw, rgb)
+    | _, _, _ => none
+  | _ => none
+
+def applyCtb (aci : List Nat) (es : List (Nat × Option Rat × Option Nat)) : List Nat × List (Option Rat) :=
+  let colors := (List.range 256).map (fun k =>
+    match es.find? (fun e => e.1 = k) with
+    | some (_, _, some rgb) => rgb
+    | _ => aci.getD k 0)
+  let lws := (List.range 256).map (fun k =>
+    match es.find? (fun e => e.1 = k) with
+    | some (_, lw, _) => lw
+    | none => none)
+  (colors, lws)
+
+def parseReq (layout exp layers blocks ents ctb : String) : Option Req :=
+  match parseBool exp, (splitList layers ";").mapM parseLayer, (splitList blocks "!").mapM parseBlock, parseEnts ents,
+        (splitList ctb ";").mapM parseCtbEntry with
+  | some ex, some ls, some bs, some es, some ct =>
     let fg := if layout = "msp" then Gen.RenderTables.mspFg else Gen.RenderTables.pspFg
-    some ⟨⟨bs⟩, mkCtx fg Gen.RenderTables.aciRgb ex ls, es⟩
-  | _, _, _, _ => none
+    let (colors, lws) := applyCtb Gen.RenderTables.aciRgb ct
+    some ⟨⟨bs⟩, { mkCtx fg colors ex ls with ctbLw := lws }, es⟩
+  | _, _, _, _, _ => none
+
+def showRes (r : Res) : String :=
+  match r with
+  | .ok (ps, st) => if st = State.init then showPrims ps else "ok-unbalanced " ++ showPrims ps
+  | .error e => showErr e
+
+def handleOf : Ent → Nat
+  | .leaf _ p _ => p.handle
+  | .ins i => i.props.handle
+
+def showLayer (p : String × LayerProps) : String :=
+  ",".intercalate [p.1, p.2.layer, showColor p.2.color, toString p.2.pen, p.2.linetype, showRat p.2.lineweight,
+    if p.2.visible then "1" else "0", if p.2.hasAci7 then "1" else "0"]
+
+/-- `layername:aci:rgb|-:rawtransparency:linetype:lineweight` -/
+def parseOverride (s : String) : Option (String × VpOverride) :=
+  match s.splitOn ":" with
+  | [name, aci, rgb, tr, lt, lw] =>
+    match parseInt aci, (if rgb = "-" then some none else rgb.toNat?.map some), tr.toNat?, parseInt lw with
+    | some a, some rgb, some tr, some lw => some (name, ⟨a, rgb, tr, lt, lw⟩)
+    | _, _, _, _ => none
+  | _ => none
+
+/-- the layer property override functions the harness installs with `set_layer_properties_override` -/
+def overrideFn (name : String) : Option (LayerProps → LayerProps) :=
+  match name with
+  | "allon" => some (fun lp => { lp with visible := true })
+  | "alloff" => some (fun lp => { lp with visible := false })
+  | "mono" => some (fun lp => { lp with color := ⟨0x112233, none⟩, hasAci7 := false, lineweight := 1 / 2, linetype := "MONO" })
+  | _ => none
+
+/-- `status,scale,ox,oy,frozen names joined by &,overrides joined by &` (override = `layername:aci:rgb|-:raw:linetype:lw`) -/
+def parseVp (s : String) : Option Vp :=
+  match s.splitOn "," with
+  | [st, sc, ox, oy, fr, ov] =>
+    match parseInt st, parseRat sc, parseRat ox, parseRat oy, (splitList ov "&").mapM parseOverride with
+    | some st, some sc, some ox, some oy, some ovs => some ⟨st, splitList fr "&", ovs, sc, ⟨ox, oy⟩⟩
+    | _, _, _, _, _ => none
+  | _ => none
+
+/-- `entityhandle:sorthandle` (decimal) -/
+def parsePair (s : String) : Option (Nat × Nat) :=
+  match s.splitOn ":" with
+  | [a, b] => match a.toNat?, b.toNat? with
+    | some a, some b => some (a, b)
+    | _, _ => none
+  | _ => none
 
 def step (line : String) : String :=
   match line.splitOn "|" with
-  | ["draw", layout, exp, layers, blocks, ents] =>
-    match parseReq layout exp layers blocks ents with
+  | "draw" :: layout :: exp :: layers :: blocks :: ents :: rest =>
+    match parseReq layout exp layers blocks ents (rest.getD 0 "") with
     | some r =>
-      match drawLayout r.doc r.ctx r.ents with
-      | .ok (ps, st) => if st = State.init then showPrims ps else "ok-unbalanced " ++ showPrims ps
-      | .error e => "err " ++ showErr e
+      match rest with
+      | [_, keep] =>
+        match (splitList keep ";").mapM String.toNat? with
+        | some ks => showRes (drawLayoutFiltered r.doc r.ctx (fun e => ks.contains (handleOf e)) r.ents)
+        | none => "bad-op keep"
+      | [_, keep, "order", mp] =>
+        match (if keep = "*" then some [] else (splitList keep ";").mapM String.toNat?), (splitList mp ";").mapM parsePair with
+        | some ks, some m =>
+          showRes (drawLayoutOrdered r.doc r.ctx m (fun e => keep = "*" || ks.contains (handleOf e)) r.ents)
+        | _, _ => "bad-op order"
+      | [_, _, ovf] =>
+        match overrideFn ovf with
+        | some f => showRes (drawLayout r.doc (r.ctx.overrideLayers f) r.ents)
+        | none => "bad-op override"
+      | _ => showRes (drawLayout r.doc r.ctx r.ents)
     | none => "bad-op parse"
-  | ["spec", layout, exp, layers, blocks, ents] =>
-    match parseReq layout exp layers blocks ents with
+  | "spec" :: layout :: exp :: layers :: blocks :: ents :: rest =>
+    match parseReq layout exp layers blocks ents (rest.getD 0 "") with
     | some r =>
       match unfold r.doc (r.doc.blocks.length + 1) r.ents with
-      | some f => showPrims (Spec.flatten r.ctx none Aff.id f)
+      | some f => showPrims (Spec.flatten r.ctx none Aff.id 0 f)
+      | none => "no-tree"
+    | none => "bad-op parse"
+  | "lawful" :: layout :: exp :: layers :: blocks :: ents :: rest =>
+    match parseReq layout exp layers blocks ents (rest.getD 0 "") with
+    | some r =>
+      match unfold r.doc (r.doc.blocks.length + 1) r.ents with
+      | some f => if f.lawful Aff.id then "1" else "0"
       | none => "no-tree"
     | none => "bad-op parse"
   | ["reach", layout, exp, layers, blocks, ents] =>
-    match parseReq layout exp layers blocks ents with
+    match parseReq layout exp layers blocks ents "" with
     | some r => if reach r.doc (r.doc.blocks.length + 1) r.ents then "1" else "0"
+    | none => "bad-op parse"
+  | "layers" :: layout :: exp :: layers :: frozen :: rest =>
+    match parseBool exp, (splitList layers ";").mapM parseLayer, (splitList (rest.getD 0 "") ";").mapM parseOverride with
+    | some ex, some ls, some ovs =>
+      let fg := if layout = "msp" then Gen.RenderTables.mspFg else Gen.RenderTables.pspFg
+      let lso := ls.map (fun l => (l, (ovs.find? (fun o => o.1 = l.name)).map (·.2)))
+      ";".intercalate ((mkVpCtxOv fg Gen.RenderTables.aciRgb ex lso (splitList frozen ";")).layers.map showLayer)
+    | _, _, _ => "bad-op parse"
+  | ["drawvp", layout, exp, layers, blocks, ents, vps, mspents] =>
+    match parseReq layout exp layers blocks ents "", parseBool exp, (splitList layers ";").mapM parseLayer,
+          (splitList vps ";").mapM parseVp, parseEnts mspents with
+    | some r, some ex, some ls, some vs, some msp =>
+      let fg := if layout = "msp" then Gen.RenderTables.mspFg else Gen.RenderTables.pspFg
+      match drawLayoutVp r.doc r.ctx (vpCtx fg Gen.RenderTables.aciRgb ex ls) r.ents vs msp with
+      | .ok (ps, st) => if st = State.init then showPrims ps else "ok-unbalanced " ++ showPrims ps
+      | .error e => showErr e
+    | _, _, _, _, _ => "bad-op parse"
+  | ["vports", status] =>
+    match (splitList status " ").mapM parseInt with
+    | some vs => " ".intercalate ((viewportsDrawn vs).map toString)
     | none => "bad-op parse"
   | _ => "bad-op"
 
